@@ -226,7 +226,20 @@ def _run_cutoff(case):
         l = _field(det, s, nmed, wl, pol, Lens(la, Mie(), 100, 100))
     peak = max(float(np.abs(l[-1]).max()), float(np.abs(m[-1]).max()), 1e-300)     # on-axis point is last
     flags = {"mielens_zero_beyond_cutoff": bool(np.all(m[:-1] == 0)), "lens_finite": bool(np.all(np.isfinite(l)))}
-    return {"resid": {}, "flags": flags, "fmax": fnum(peak), "lens_far_over_peak": fnum(float(np.abs(l[:-1]).max()) / peak)}
+    # the cut-off belongs to the quadrature order that was asked for: with more points the same radii lie inside it, the analytic
+    # theory is no longer zero there, further refinement does not change it, and it is what the converged numerical wrapper gives
+    kr = max(case["krho"])
+    M = [_field(det, s, nmed, wl, pol, MieLens(la, calculator_accuracy_kwargs={"quad_npts": n, "interpolate_integrals": False})) for n in (300, 450)]
+    nphi = int(2 * kr * math.sin(la)) + 60
+    nphi += nphi % 2
+    with warnings.catch_warnings():
+        warnings.simplefilter("ignore")
+        L = [_field(det, s, nmed, wl, pol, Lens(la, Mie(), quad_npts_theta=nt, quad_npts_phi=int(nphi * f) + int(nphi * f) % 2)) for nt, f in ((200, 1.0), (300, 1.5))]
+    far = max(float(np.abs(L[1][:-1]).max()), 1e-300)          # judged against the field AT these radii, not against the on-axis peak
+    d = lambda a, b: float(np.abs(a[:-1] - b[:-1]).max()) / far
+    flags["mielens_nonzero_when_cutoff_raised"] = bool(np.all(np.abs(M[0][:-1]).max(axis=1) > 0))
+    resid = {"far_mielens_refine": fnum(d(M[0], M[1])), "far_lens_refine": fnum(d(L[0], L[1])), "far_cross": fnum(d(M[1], L[1]))}
+    return {"resid": resid, "flags": flags, "fmax": fnum(peak), "lens_far_over_peak": fnum(float(np.abs(l[:-1]).max()) / peak)}
 
 
 # ------------------------------------------------------------------ oracle
@@ -250,6 +263,10 @@ def judge(case, obs):
         if not r["default_vs_direct"] <= 1e-8:
             out.append({"mech": "interp.check", "detail": "default MieLens vs direct evaluation %.3e; %s" % (r["default_vs_direct"], desc)})
         return out
+    if case["kind"] == "cutoff":
+        if r["far_mielens_refine"] <= 1e-6 and r["far_lens_refine"] <= 1e-6 and not r["far_cross"] <= 1e-5:
+            out.append({"mech": "cutoff.far_cross", "detail": "with raised quadrature orders both theories are converged beyond the default cut-off (%.1e, %.1e) but differ by %.3e of the field there; %s" % (r["far_mielens_refine"], r["far_lens_refine"], r["far_cross"], desc)})
+        r = {}
     for k, v in r.items():
         tol = {"zero_aberration": 1e-13, "interp_check": 1e-8, "interp_on": 1e-8, "interp_on_custom": 1e-8,
                "reused_lens_object": 0.0, "reused_mielens_object": 0.0, "small_theta_lt_phi": SMALL_TOL[case.get("inner", "Mie")], "small_theta_gt_phi": SMALL_TOL[case.get("inner", "Mie")]}[k]
